@@ -518,7 +518,7 @@ def run(res):
       found = True
       res.violation(
         KEY_FLUID if label == "SPRING|DAMPER|ACTUATION" else f"C26:discrete-roundtrip:implicitfast:fluid:{label}",
-        f"implicitfast, fluid forces, flags {label}: implicit() advances with d.qacc unchanged (ACTUATION, SPRING and DAMPER all disabled) but inverse.discrete_acc still multiplies by M - h*qDeriv, and deriv_smooth_vel adds the fluid derivative although passive() has switched the fluid force off; the discrete inverse does not return the applied force (mujoco.mj_inverse does); same root cause and repair as C32:deriv_smooth_vel:fluid-derivative-with-passive-disabled",
+        f"(regression of the finding repaired in /repo a0466b7) implicitfast, fluid forces, flags {label}: implicit() advances with d.qacc unchanged (ACTUATION, SPRING and DAMPER all disabled) but inverse.discrete_acc still multiplies by M - h*qDeriv, and deriv_smooth_vel adds the fluid derivative although passive() has switched the fluid force off; the discrete inverse does not return the applied force (mujoco.mj_inverse does); same root cause and repair as C32:deriv_smooth_vel:fluid-derivative-with-passive-disabled",
         fl,
       )
 
